@@ -17,8 +17,6 @@
 package history
 
 import (
-	"fmt"
-
 	"github.com/bbva/qed/balloon/cache"
 	"github.com/bbva/qed/crypto/hashing"
 )
@@ -26,6 +24,8 @@ import (
 type computeHashVisitor struct {
 	hasher hashing.Hasher
 	cache  cache.Cache
+
+	missing bool // a required audit-path entry was absent
 }
 
 func newComputeHashVisitor(hasher hashing.Hasher, cache cache.Cache) *computeHashVisitor {
@@ -52,8 +52,11 @@ func (v *computeHashVisitor) VisitPartialInnerHashOp(op partialInnerHashOp) hash
 
 func (v *computeHashVisitor) VisitGetCacheOp(op getCacheOp) hashing.Digest {
 	hash, ok := v.cache.Get(op.Position().Bytes())
-	if !ok { // TODO maybe we should return an error
-		panic(fmt.Sprintf("Oops, something went wrong. There should be a cached element at position %v", op.Position()))
+	if !ok {
+		// the proof being verified comes from an untrusted server: remember
+		// that it is incomplete so that verification fails, do not panic
+		v.missing = true
+		return nil
 	}
 	return hash
 }
